@@ -20,6 +20,12 @@ Two kinds of case descriptor:
   suite that lists the case directly come before the case's own in every phase except cleanup where they come after;
   nothing from the parent of a sub-suite; later [conf] settings override earlier ones; the three ways agree.
 
+* ``shared`` – a suite whose [before-assert] / [assert] / [cleanup] hold instructions with references to symbols that
+  each of three cases defines differently in its [setup] (integers, ranges, regexes, paths, globs, lists, matcher /
+  transformer / program / text-source symbols).  The instruction objects are parsed once from the suite file and
+  serve every case of the run.  Every case is built to PASS exactly when the instruction is evaluated with its own
+  values: PASS alone with ``--suite`` (absolute), PASS at every position of ``exactly suite`` in two listing orders.
+
 Every probe of a ``contents`` case writes to ``@[EXACTLY_HOME]@/rec.jsonl`` (each case lives in its own directory), so
 records are attributed to cases independently of what they contain.
 """
@@ -64,12 +70,14 @@ MIN_OBS = {
               'c17.observer_absolute_checks': 700, 'c17.order_invariance_checks': 1100,
               'c17.m2_timeouts_compared': 3500, 'c17.threeway_checks': 300, 'c17.model_sequence_checks': 1000,
               'c17.subsuite_case_checks': 350, 'c17.decoy_override_checks': 120, 'c17.sandbox_distinct_checks': 1300,
-              'c17.preprocessor_log_checks': 1000},
+              'c17.preprocessor_log_checks': 1000, 'c17.shared_in_suite_checks': 200,
+              'c17.shared_standalone_checks': 200},
     'thorough': {'evaluations': 10000, 'classes': 1500, 'c17.suite_runs': 2000, 'c17.standalone_runs': 4500,
                  'c17.observer_absolute_checks': 2400, 'c17.order_invariance_checks': 4500,
                  'c17.m2_timeouts_compared': 16000, 'c17.threeway_checks': 1500, 'c17.model_sequence_checks': 5000,
                  'c17.subsuite_case_checks': 1800, 'c17.decoy_override_checks': 700,
-                 'c17.sandbox_distinct_checks': 5500, 'c17.preprocessor_log_checks': 5000},
+                 'c17.sandbox_distinct_checks': 5500, 'c17.preprocessor_log_checks': 5000,
+                 'c17.shared_in_suite_checks': 300, 'c17.shared_standalone_checks': 300},
 }
 KNOWN = {}
 
@@ -149,6 +157,21 @@ def cases(tier, seed):
                'decoy': ({'actor': None, 'pre': bits % 4 == 1, 'status': None, 'phases': list(PHASES), 'fail': None}
                          if bits % 2 else None),
                'rel': bits % 3 != 0, 'shuffle': None}
+    # (4) shared suite contents: every single instruction kind in two listing orders; combinations
+    for j, nm in enumerate(sorted(_SHARED)):
+        yield {'kind': 'shared', 'names': [nm], 'order': [0, 1, 2]}
+        yield {'kind': 'shared', 'names': [nm], 'order': [[2, 1, 0], [1, 2, 0], [2, 0, 1]][j % 3]}
+    all_names = sorted(_SHARED)
+    for j in range(8 if tier == 'quick' else 40):
+        r2 = common.rng_for(seed, ID, 'shared', j)
+        names = r2.sample(all_names, r2.choice([2, 3, 5, 8]))
+        # at most one instruction that changes a setting later suite instructions depend on
+        if 'cd' in names:
+            names = [n for n in names if n == 'cd' or _SHARED[n][0] == 'before-assert'] or ['cd']
+            names = [n for n in names if n in ('cd', 'env', 'timeout', 'def-in-suite')]
+        order = [0, 1, 2]
+        r2.shuffle(order)
+        yield {'kind': 'shared', 'names': sorted(set(names)), 'order': order}
     # ---- seeded part ----------------------------------------------------------------------------------------
     rng = common.rng_for(seed, ID)
     n_indep, n_cont = (12, 90) if tier == 'quick' else (200, 1000)
@@ -900,7 +923,181 @@ def _run_contents(case, ctx):
 
 
 # ---------------------------------------------------------------------------------------------------------------
+# (3) shared suite contents: one instruction object, parsed once from the suite file, serves every case
+# ---------------------------------------------------------------------------------------------------------------
+# A suite-level instruction whose arguments refer to symbols that every case defines differently (in [setup], which
+# precedes the suite's contents of the later phases).  Every case is built so that it PASSes exactly when the suite's
+# instruction is evaluated with THIS case's values; a value kept from an earlier case of the same process shows as a
+# non-PASS in the suite run while the case PASSes alone.
+_LETTER = 'abc'
+
+
+def _shared_case_defs(k):
+    """[setup] of case k (k = 0, 1, 2): symbols + fixture.  The action prints k+1 lines and exits with k+1."""
+    n = k + 1
+    L = _LETTER[k]
+    return [
+        'def string N = %d' % n,
+        'def string NEG = -%d' % n,
+        'def string L = %s' % L,
+        'def string LNL = <<EOF\n%s\nEOF' % L,
+        'def string RGX = ^%s$' % L,
+        'def string GLOB = f%d*' % n,
+        'def string FNAME = f%d.txt' % n,
+        'def list ARGS = x%d y%d' % (n, n),
+        'def path P = -rel-act f%d.txt' % n,
+        'def path D = -rel-act d%d' % n,
+        'def text-matcher TM = num-lines == %d' % n,
+        'def integer-matcher IM = == %d' % n,
+        'def line-matcher LM = line-num == %d' % n,
+        'def file-matcher FM = name f%d.txt' % n,
+        'def files-matcher FSM = num-files == %d' % n,
+        'def text-transformer TT = replace %s X%d' % (L, n),
+        'def program PGM = % test -f f{0}.txt'.format(n),
+        'def text-source TS = <<EOF\n%s\nEOF' % L,
+        'file f%d.txt = <<EOF\n%s\nEOF' % (n, L),
+        'dir d%d = {\n%s\n}' % (n, '\n'.join('  file e%d.txt' % i for i in range(n))),
+    ]
+
+
+# name -> (phase of the suite, suite instruction(s), [(phase, case's own instruction)] observing a setting, needs_act)
+_SHARED = {
+    'int-expr': ('assert', 'exit-code == @[N]@', []),
+    'int-expr-arith': ('assert', 'exit-code == @[N]@*2-@[N]@', []),
+    'int-matcher-sym': ('assert', 'exit-code @[IM]@', []),
+    'num-lines': ('assert', 'stdout num-lines == @[N]@', []),
+    'text-matcher-sym': ('assert', 'stdout @[TM]@', []),
+    'line-nums-1': ('assert', 'stdout -transformed-by ( filter -line-nums @[N]@\n ) equals @[LNL]@', []),
+    'line-nums-neg': ('assert', 'stdout -transformed-by ( filter -line-nums @[NEG]@\n ) equals <<EOF\na\nEOF', []),
+    'line-nums-range': ('assert', 'stdout -transformed-by ( filter -line-nums @[N]@:@[N]@\n ) equals @[LNL]@', []),
+    'line-nums-multi': ('assert', 'stdout -transformed-by ( filter -line-nums @[N]@ @[N]@:\n ) '
+                                  '-transformed-by ( filter -line-nums 1\n ) equals @[LNL]@', []),
+    'line-num-matcher': ('assert', 'stdout any line : ( line-num == @[N]@ && contents equals @[L]@ )', []),
+    'line-matcher-sym': ('assert', 'stdout -transformed-by filter @[LM]@ equals @[LNL]@', []),
+    'regex-sym': ('assert', 'stdout -transformed-by grep @[RGX]@ equals @[LNL]@', []),
+    'regex-full': ('assert', 'stdout -transformed-by filter contents matches -full @[L]@ equals @[LNL]@', []),
+    'replace': ('assert', 'contents @[FNAME]@ : -transformed-by replace @[L]@ Z equals <<EOF\nZ\nEOF', []),
+    'transformer-sym': ('assert', 'contents f@[N]@.txt : -transformed-by @[TT]@ equals <<EOF\nX@[N]@\nEOF', []),
+    'path-sym': ('assert', 'contents @[P]@ : equals @[LNL]@', []),
+    'path-suffix': ('assert', 'exists -rel-act @[FNAME]@ : type file', []),
+    'path-sym-rel': ('assert', 'exists -rel D e0.txt', []),
+    'glob': ('assert', 'dir-contents . : -selection name @[GLOB]@ num-files == 1', []),
+    'file-matcher-sym': ('assert', 'dir-contents . : -selection @[FM]@ num-files == 1', []),
+    'files-matcher-sym': ('assert', 'dir-contents @[D]@ : @[FSM]@', []),
+    'dir-num-files': ('assert', 'dir-contents d@[N]@ : num-files == @[N]@', []),
+    'program-sym': ('assert', 'run @ PGM', []),
+    'program-args': ('assert', 'run % test -f @[FNAME]@', []),
+    'program-list': ('assert', 'run % sh -c \'test "$1" = "$3"\' sh @[ARGS]@ x@[N]@', []),
+    'shell': ('assert', 'run $ test -f @[FNAME]@', []),
+    'text-source-sym': ('assert', 'contents @[P]@ : equals @[TS]@', []),
+    'stdout-from': ('assert', 'contents @[P]@ : equals -stdout-from % cat f@[N]@.txt', []),
+    'here-doc': ('assert', 'contents @[P]@ : equals <<EOF\n@[L]@\nEOF', []),
+    'file-ba': ('before-assert', 'file out.txt = @[LNL]@', [('assert', 'contents out.txt : equals @[LNL]@')]),
+    'file-from-path': ('before-assert', 'file out2.txt = -contents-of @[P]@', [('assert', 'contents out2.txt : equals @[LNL]@')]),
+    'copy': ('before-assert', 'copy @[P]@ copied.txt', [('assert', 'contents copied.txt : equals @[LNL]@')]),
+    'cd': ('before-assert', 'cd @[D]@', [('assert', 'dir-contents . : num-files == @[N]@')]),
+    'env': ('before-assert', 'env C17_SH = @[L]@', [('assert', "run % sh -c 'test \"$C17_SH\" = \"$1\"' sh @[L]@")]),
+    'def-in-suite': ('before-assert', 'def string S2 = @[L]@@[N]@', [('assert', "run % test @[S2]@ '=' @[L]@@[N]@")]),
+    'def-path-in-suite': ('before-assert', 'def path P2 = -rel D e0.txt', [('assert', 'exists @[P2]@')]),
+    'timeout': ('before-assert', 'timeout = @[N]@+100', []),  # observed through M2
+    'cleanup-run': ('cleanup', 'run % test -f @[P]@', []),
+    'cleanup-int': ('cleanup', 'run % test @[N]@ -eq @[N]@', []),
+}
+
+
+def _shared_files(names):
+    by_phase = {}
+    for nm in names:
+        ph, instr, _ = _SHARED[nm]
+        by_phase.setdefault(ph, []).append(instr)
+    suite = '[cases]\n<CASES>\n'
+    for ph in ('before-assert', 'assert', 'cleanup'):
+        if ph in by_phase:
+            suite += '[%s]\n%s\n' % (ph, '\n'.join(by_phase[ph]))
+    case_texts = []
+    for k in range(3):
+        own = {}
+        for nm in names:
+            for ph, instr in _SHARED[nm][2]:
+                own.setdefault(ph, []).append(instr)
+        t = '[setup]\n' + '\n'.join(_shared_case_defs(k)) + '\n'
+        t += '[act]\n$ printf \'%s\'; exit %d\n' % (''.join(c + '\\n' for c in _LETTER[:k + 1]), k + 1)
+        if 'timeout' in names:
+            own.setdefault('assert', []).append('run % true c17-timeout-observer')
+        for ph in ('before-assert', 'assert', 'cleanup'):
+            if ph in own:
+                t += '[%s]\n%s\n' % (ph, '\n'.join(own[ph]))
+        case_texts.append(t)
+    return suite, case_texts
+
+
+def _run_shared(case, ctx):
+    from vf import driver
+    ses = ctx.get_session()
+    viol, inconc = [], []
+    R = _Runner(ctx, ses, viol, inconc)
+    names = case['names']
+    suite, case_texts = _shared_files(names)
+    order = case['order']
+    files = {'k%d.case' % k: t for k, t in enumerate(case_texts)}
+    files['s.suite'] = suite.replace('<CASES>', '\n'.join('k%d.case' % k for k in order))
+    d = ses.new_case_dir({})
+    driver.write_files(d, files)
+    evaluations = 0
+    classes = []
+    wit = {'files': files, 'suite_contents': names, 'listing_order': order}
+
+    def timeout_seen(calls):
+        return [c.get('timeout') for c in calls
+                if isinstance(c.get('args'), list) and 'c17-timeout-observer' in c.get('args')]
+
+    alone = {}
+    for k in range(3):
+        r, ok = R.run(['--suite', 's.suite', 'k%d.case' % k], d, False)
+        if not ok:
+            continue
+        ident = driver.first_line(r.out)
+        alone[k] = ident
+        ctx.count('c17.shared_standalone_checks')
+        evaluations += 1
+        if ident != 'PASS':
+            # the absolute oracle: the case is consistent with its own definitions
+            R.bad('shared[%s] k%d alone with --suite: %s, but every argument of the suite\'s instructions denotes '
+                  'this case\'s own values (must PASS)' % ('+'.join(names), k, ident),
+                  observed=r.brief(), **wit)
+        if 'timeout' in names:
+            ts = timeout_seen(r.calls)
+            if ts != [k + 101]:
+                R.bad('shared[timeout] k%d alone: observer started with timeout %r, the suite sets %d' % (k, ts, k + 101),
+                      **wit)
+        ses.clean_tmp()
+    r, ok = R.run(['suite', 's.suite'], d, True)
+    if ok:
+        by_name, final = _suite_idents(r.out)
+        for pos, k in enumerate(order):
+            got = by_name.get('k%d.case' % k)
+            ctx.count('c17.shared_in_suite_checks')
+            evaluations += 1
+            classes.append(('shared', '+'.join(names) if len(names) == 1 else 'combo%d' % len(names), 'pos%d' % pos,
+                            (got or ['-'])[0]))
+            if got != ['PASS']:
+                R.bad('shared[%s] k%d at position %d of the suite run: %r; alone with the same suite: %s (the suite\'s '
+                      'instruction must be evaluated with the symbols of the case it runs in)'
+                      % ('+'.join(names), k, pos, got, alone.get(k)), observed=r.brief(), **wit)
+        if 'timeout' in names:
+            ts = timeout_seen(r.calls)
+            exp = [k + 101 for k in order]
+            if ts != exp:
+                R.bad('shared[timeout] suite run: observers started with timeouts %r, expected %r' % (ts, exp), **wit)
+    ses.clean_tmp()
+    ses.drop(d)
+    return {'classes': classes, 'viol': viol, 'inconclusive': inconc, 'evaluations': evaluations}
+
+
+# ---------------------------------------------------------------------------------------------------------------
 def run_case(case, ctx):
+    if case['kind'] == 'shared':
+        return _run_shared(case, ctx)
     if case['kind'] == 'indep':
         return _run_indep(case, ctx)
     if case['kind'] == 'contents':
